@@ -374,7 +374,7 @@ func (r *reader) _readEvent(canary byte) (m Message, err error) {
 			m = mm
 
 		default:
-			panic(fmt.Sprintf("must not happen: invalid canary % X", canary))
+			return m, fmt.Errorf("invalid status byte % X (no running status)", canary)
 		}
 
 		// on a voice/channel category message with status either given or cached (running status)
